@@ -27,11 +27,11 @@ where
     M: Clone + Debug + Eq + Hash,
     W: Actor<Msg = M, Timer = u8, Random = u8>,
 {
-    for quiet in [false, true] {
+    for quiet in [0u8, 1, 2, 3] {
         let inner: P<M> = P::new(quiet);
         for id in [0usize, 3] {
             // on_start
-            let case = format!("{}.start:quiet={} id={}", label, quiet, id);
+            let case = format!("{}.start:mode={} id={}", label, quiet, id);
             if ctx.want(&case) {
                 let mut dout: Out<P<M>> = Out::new();
                 let ds = inner.on_start(Id::from(id), &mut dout);
@@ -43,7 +43,7 @@ where
             }
             for (mi, m) in msgs.iter().enumerate() {
                 for handler in ["msg", "timeout", "random"] {
-                    let case = format!("{}.{}:quiet={} id={} m={}", label, handler, quiet, id, mi);
+                    let case = format!("{}.{}:mode={} id={} m={}", label, handler, quiet, id, mi);
                     if !ctx.want(&case) {
                         continue;
                     }
